@@ -410,7 +410,9 @@ func runHistory(h *History) *RunReport {
 				hstats.sharedDocEdited++
 				return rep
 			}
-			if !sameOutcome(&r.compiled, &r.oneshot) {
+			// (a step-cap outcome is a budget artefact: Compile and Search are budgeted
+			// separately, the one-shot call as one operation)
+			if r.compiled.Kind != "stepcap" && r.oneshot.Kind != "stepcap" && !sameOutcome(&r.compiled, &r.oneshot) {
 				add(Violation{Prop: "C13", Class: "oneshot-vs-compiled", Sig: "pristine",
 					Detail: fmt.Sprintf("op %d: in a freshly initialised package Compile(%q).Search(doc%d) gives %s but Search(%q, doc%d) gives %s", i, src, op.Doc, r.compiled.String(), src, op.Doc, r.oneshot.String())})
 			}
@@ -464,7 +466,7 @@ func runHistory(h *History) *RunReport {
 			if k.op == i {
 				continue
 			}
-			if !equalVal(k.raw, k.snap) {
+			if !equalVal(deepCopy(k.raw), k.snap) {
 				add(Violation{Prop: "C13", Class: "result-clobbered", Sig: "clobber",
 					Detail: fmt.Sprintf("the value returned by op %d (%s) was %s when returned and reads %s after op %d (%s)", k.op, opString(h, &h.Ops[k.op]), render(k.snap), render(k.raw), i, opString(h, op))})
 				earlier = nil
@@ -594,7 +596,7 @@ func genHistory(master uint64, idx int) *History {
 		for i := 2 + r.Intn(3); i > 0; i-- {
 			pool = append(pool, gen.Expr(r))
 		}
-		base = DocSpec{Kind: "json", Text: gen.Doc(r), CapSeed: r.Next() | 1}
+		base = DocSpec{Kind: "json", Text: gen.Doc(r), CapSeed: r.Next() | 1, GoNums: goNumSeed(r)}
 	case x < 65:
 		for i := 2 + r.Intn(3); i > 0; i-- {
 			pool = append(pool, systematic[r.Intn(len(systematic))])
@@ -633,6 +635,14 @@ func genHistory(master uint64, idx int) *History {
 	}
 	h.Parsers = 1 + r.Intn(2)
 	h.Docs = []DocSpec{base}
+	if base.Kind == "typed" {
+		// a second typed document of ANOTHER Go type (possibly one that prints the same name)
+		other := "tdoc-shadow"
+		if base.Name == "tdoc-shadow" || r.Chance(1, 3) {
+			other = typedDocNames[r.Intn(len(typedDocNames))]
+		}
+		h.Docs = append(h.Docs, DocSpec{Kind: "typed", Name: other, CapSeed: typedSeed(r)})
+	}
 	if base.Kind == "json" {
 		// fault documents: the expression fails half-way on these
 		for i := r.Intn(3); i > 0; i-- {
@@ -807,6 +817,40 @@ func genMarathon(master uint64, idx int) *History {
 			}
 			h.Exprs = append(h.Exprs, src)
 			h.Ops = append(h.Ops, HOp{Kind: "parse", Obj: 0, Expr: len(h.Exprs) - 1, Fault: fault})
+		}
+	}
+	// depth ladders: around every likely nesting limit, first inputs just above it (a
+	// guard would reject them), then inputs at and just below it (a fresh object accepts
+	// them): a guard whose counter leaks on rejection or failure shows here
+	shape := gen.DeepShapes[r.Intn(len(gen.DeepShapes))]
+	open := gen.DeepOpenShapes[r.Intn(len(gen.DeepOpenShapes))]
+	deepE := -1
+	for _, lim := range gen.DepthLimits {
+		if lim > 1100 && !r.Chance(1, 3) {
+			continue
+		}
+		for _, d := range []int{lim + 5, lim + 1, lim / 2, lim, lim - 1, lim - 2, lim - 6} {
+			src := gen.Deep(shape, d)
+			if r.Chance(1, 6) {
+				src = gen.Deep(open, d)
+			}
+			h.Exprs = append(h.Exprs, src)
+			h.Ops = append(h.Ops, HOp{Kind: "parse", Obj: 0, Expr: len(h.Exprs) - 1, Fault: "depth-ladder"})
+			if r.Chance(1, 4) {
+				h.Ops = append(h.Ops, HOp{Kind: "oneshot", Expr: len(h.Exprs) - 1, Doc: 0})
+			}
+		}
+		if lim <= 520 && deepE < 0 && r.Chance(1, 3) {
+			// a deep compiled expression searched on failing and succeeding documents
+			e := gen.Deep(shape, lim-3)
+			if compiles(e) {
+				h.Exprs = append(h.Exprs, e)
+				h.Compiled = append(h.Compiled, len(h.Exprs)-1)
+				deepE = len(h.Compiled) - 1
+			}
+		}
+		if deepE >= 0 {
+			h.Ops = append(h.Ops, HOp{Kind: "search", Obj: deepE, Doc: r.Intn(len(h.Docs))})
 		}
 	}
 	return h
